@@ -1723,10 +1723,35 @@ class Interp(object):
         return out
 
     def ev_GeneratorExp(self, e, fr):
-        out = []
+        """lazy, as in CPython: the outermost iterable is evaluated now, everything else when the consumer asks for the next
+        element - names of the enclosing function are looked up at that moment (a loop that re-binds a name the filter uses
+        changes the filter)"""
         sub = self._comp_frame(fr)
-        self._comp(e.generators, sub, lambda f: out.append(self.ev(e.elt, f)))
-        return iter(out)
+        gens = e.generators
+        if gens[0].is_async:
+            self.unsupported("async comprehension")
+        first = self.iterate(self.ev(gens[0].iter, fr))
+
+        def level(k, source):
+            g = gens[k]
+            for item in source:
+                self._step()
+                self.assign(g.target, item, sub)
+                ok = True
+                for c in g.ifs:
+                    if not self.truth(self.ev(c, sub)):
+                        ok = False
+                        break
+                if not ok:
+                    continue
+                if k + 1 == len(gens):
+                    yield self.ev(e.elt, sub)
+                else:
+                    if gens[k + 1].is_async:
+                        self.unsupported("async comprehension")
+                    for x in level(k + 1, self.iterate(self.ev(gens[k + 1].iter, sub))):
+                        yield x
+        return level(0, first)
 
     def ev_SetComp(self, e, fr):
         out = []
